@@ -44,6 +44,9 @@ type Loc struct {
 	Path     []pathSel
 	Elem     types.Type
 	Origin   string
+	// slice element: Keys = [array, off+idx]; loads are printed through the
+	// sl_at function so that quantifiers over indices have clean triggers
+	SlOff, SlIdx *Term
 }
 
 // ---------------------------------------------------------------- obligations
@@ -126,6 +129,7 @@ type Exec struct {
 	relyTouched []relyLoc
 	lockChecks bool
 	axioms   []*Term // global axioms of the memory model (independent of program point)
+	slAtSorts map[string]string
 }
 
 type caseDef struct {
